@@ -6,5 +6,6 @@ INVARIANT AttrRestored
 INVARIANT Terminates
 INVARIANT FaultSurfaces
 INVARIANT ModeIsChanged
+INVARIANT TimesOutEmpty
 INVARIANT Report
 CHECK_DEADLOCK FALSE
